@@ -134,16 +134,16 @@ def jobs_c09(tier):
         for dims in (regs if cls == 'RegularArray' else shapes):
             for t in targets:
                 for clip in (False, True):
-                    js.append((h_rpad, (cls, dims, t, clip, False), 600))
-            js.append((h_rpad, (cls, dims, 2, True, True), 600))
-            js.append((h_rpad, (cls, dims, 2, False, True), 600))
+                    js.append((h_rpad, (cls, dims, t, clip, False), 1800))
+            js.append((h_rpad, (cls, dims, 2, True, True), 1800))
+            js.append((h_rpad, (cls, dims, 2, False, True), 1800))
     ax0 = [('ListOffsetArray64', (2, 0, 1)), ('ListArray64', (1, 2)), ('RegularArray', (2, 2)), ('UnmaskedArray', (3,)), ('IndexedOptionArray64', (0, 1, 0))]
     if tier != 'quick':
         ax0 += [('ListOffsetArray64', (0,)), ('RegularArray', (0, 3)), ('UnmaskedArray', (0,)), ('UnmaskedArray', (1,)), ('IndexedOptionArray64', (1, 1)), ('IndexedOptionArray64', (0, 0, 0, 0))]
     for cls, dims in ax0:
         for t in ((1, 5) if tier == 'quick' else (0, 1, 2, 3, 5)):
             for clip in (False, True):
-                js.append((h_rpad_axis0, (cls, dims, t, clip), 600))
+                js.append((h_rpad_axis0, (cls, dims, t, clip), 1800))
     return js
 
 
@@ -259,12 +259,12 @@ def jobs_c05(tier):
     for cls in ('ListOffsetArray64', 'ListArray64', 'RegularArray'):
         for dims in (regs if cls == 'RegularArray' else shapes):
             for deep in (False, True):
-                js.append((h_num, (cls, dims, deep), 600))
-                js.append((h_localindex, (cls, dims, deep), 600))
+                js.append((h_num, (cls, dims, deep), 1800))
+                js.append((h_localindex, (cls, dims, deep), 1800))
     pats = [(0,), (1,), (0, 1, 0), (1, 0, 0), (0, 0, 1, 0)] if tier == 'quick' else [p for n in (1, 2, 3, 4) for p in itertools.product((0, 1), repeat=n)]
     for p in pats:
         for deep in (False, True):
-            js.append((h_option_flatten, (p, deep), 600))
+            js.append((h_option_flatten, (p, deep), 1800))
     return js
 
 
@@ -667,11 +667,11 @@ def jobs_c01(tier):
     regs = [(2, 2), (0, 2), (3, 1)] if tier == 'quick' else [(s_, l_) for s_ in range(4) for l_ in range(3)]
     for cls in ('ListOffsetArray64', 'ListArray64', 'RegularArray'):
         for lens in (regs if cls == 'RegularArray' else shapes):
-            js.append((h_getitem_next_at, (cls, lens), 600))
+            js.append((h_getitem_next_at, (cls, lens), 1800))
             for s in steps:
-                js.append((h_getitem_next_range, (cls, lens, s), 600))
+                js.append((h_getitem_next_range, (cls, lens, s), 1800))
             for nidx in (1, 2):
-                js.append((h_getitem_next_array, (cls, lens, nidx), 600))
+                js.append((h_getitem_next_array, (cls, lens, nidx), 1800))
     return js
 
 
@@ -774,7 +774,7 @@ def h_reduce_local(lens):
 
 def jobs_c03(tier):
     shapes = [(2,), (0, 3), (2, 0, 1)] if tier == 'quick' else [l for n in (1, 2, 3) for l in itertools.product(range(4), repeat=n)]
-    return [(h_reduce_local, (l,), 600) for l in shapes]
+    return [(h_reduce_local, (l,), 1800) for l in shapes]
 
 
 # ------------------------------------------------------------------------------------------------ C09: padding along axis 0
@@ -975,12 +975,12 @@ def jobs_option_below(tier):
     pats = [(0, 1, 0), (1, 0, 0, 1), (0, 0, 0), (1, 1)] if tier == 'quick' else [p for k in (1, 2, 3, 4) for p in itertools.product((0, 1), repeat=k)]
     for meth in BELOW_METHODS:
         for p in pats:
-            js.append((h_option_below, ('IndexedOptionArray64', p, None, meth), 600))
+            js.append((h_option_below, ('IndexedOptionArray64', p, None, meth), 1800))
             for vw in (True, False):
-                js.append((h_option_below, ('ByteMaskedArray', p, vw, meth), 600))
+                js.append((h_option_below, ('ByteMaskedArray', p, vw, meth), 1800))
             for vw, lsb in ((True, True), (False, False)) if tier == 'quick' else itertools.product((True, False), repeat=2):
-                js.append((h_option_below, ('BitMaskedArray', p, (vw, lsb), meth), 600))
-        js.append((h_option_below, ('UnmaskedArray', (0, 0, 0), None, meth), 600))
+                js.append((h_option_below, ('BitMaskedArray', p, (vw, lsb), meth), 1800))
+        js.append((h_option_below, ('UnmaskedArray', (0, 0, 0), None, meth), 1800))
     return js
 
 
@@ -1046,21 +1046,21 @@ def jobs_c04(tier):
     L = 3 if tier == 'quick' else 4
     for cls in ('ListOffsetArray64', 'ListArray64'):
         for lens in ([(2, 0, 1), (1, 1)] if tier == 'quick' else [l for n in (1, 2, 3) for l in itertools.product(range(3), repeat=n)]):
-            js.append((h_broadcast_tooffsets, (cls, lens, lens), 600))
+            js.append((h_broadcast_tooffsets, (cls, lens, lens), 1800))
             for i in range(len(lens)):
                 for d in (-1, 1):
                     c = list(lens); c[i] += d
                     if c[i] >= 0:
-                        js.append((h_broadcast_tooffsets, (cls, lens, tuple(c)), 600))
+                        js.append((h_broadcast_tooffsets, (cls, lens, tuple(c)), 1800))
             # same total, different split
             if len(lens) >= 2 and lens[0] > 0:
                 c = list(lens); c[0] -= 1; c[1] += 1
-                js.append((h_broadcast_tooffsets, (cls, lens, tuple(c)), 600))
+                js.append((h_broadcast_tooffsets, (cls, lens, tuple(c)), 1800))
     for length in (1, 2, 3):
         for counts in itertools.product(range(L), repeat=length):
-            js.append((h_broadcast_tooffsets, ('RegularArray', (1, length), counts), 600))
-        js.append((h_broadcast_tooffsets, ('RegularArray', (2, length), (2,) * length), 600))
-        js.append((h_broadcast_tooffsets, ('RegularArray', (2, length), (2,) * (length - 1) + (1,)), 600))
+            js.append((h_broadcast_tooffsets, ('RegularArray', (1, length), counts), 1800))
+        js.append((h_broadcast_tooffsets, ('RegularArray', (2, length), (2,) * length), 1800))
+        js.append((h_broadcast_tooffsets, ('RegularArray', (2, length), (2,) * (length - 1) + (1,)), 1800))
     return js
 
 
@@ -1148,7 +1148,7 @@ def h_sort_local(lens, arg):
 
 def jobs_c06(tier):
     shapes = [(2,), (0, 3), (2, 0, 1)] if tier == 'quick' else [l for n in (1, 2, 3) for l in itertools.product(range(4), repeat=n)]
-    return [(h_sort_local, (l, a), 600) for l in shapes for a in (False, True)]
+    return [(h_sort_local, (l, a), 1800) for l in shapes for a in (False, True)]
 
 
 # ------------------------------------------------------------------------------------------------ C09 / C11: simplify_optiontype (option of option, index of index)
@@ -1268,7 +1268,7 @@ def jobs_simplify(tier):
         inners += [('IndexedOptionArray64', (0, 0, 0)), ('ByteMaskedArray', (1, 1)), ('IndexedOptionArray32', (0, 0))]
     for oc, op in outers:
         for ic, ip in inners:
-            js.append((h_simplify_option, (oc, op, ic, ip), 600))
+            js.append((h_simplify_option, (oc, op, ic, ip), 1800))
     return js
 
 
@@ -1372,10 +1372,10 @@ def jobs_c08(tier):
     js = []
     for a in A:
         for b in A:
-            js.append((h_indexed_mergemany, ((a, b),), 600))
+            js.append((h_indexed_mergemany, ((a, b),), 1800))
     trip = [(A[2], A[0], A[1]), (A[0], A[2], A[3]), (A[1], A[2], A[0])] if tier == 'quick' else [(a, b, c) for a in A[:3] for b in A[:4] for c in A[:3]]
     for t in trip:
-        js.append((h_indexed_mergemany, (t,), 600))
+        js.append((h_indexed_mergemany, (t,), 1800))
     return js
 
 
@@ -1473,23 +1473,23 @@ def jobs_c02(tier):
     for cls, meth, extra, kind in CONVERSIONS:
         if cls in ('ListOffsetArray64', 'ListArray64'):
             for d in shapes:
-                js.append((h_convert, (cls, d, None, meth, extra, kind), 600))
+                js.append((h_convert, (cls, d, None, meth, extra, kind), 1800))
         elif cls == 'RegularArray':
             for d in regs:
-                js.append((h_convert, (cls, d, None, meth, extra, kind), 600))
+                js.append((h_convert, (cls, d, None, meth, extra, kind), 1800))
         elif cls == 'IndexedOptionArray64':
             for p in pats:
-                js.append((h_convert, (cls, p, None, meth, extra, kind), 600))
+                js.append((h_convert, (cls, p, None, meth, extra, kind), 1800))
         elif cls == 'ByteMaskedArray':
             for p in pats:
                 for vw in (True, False):
-                    js.append((h_convert, (cls, p, vw, meth, extra, kind), 600))
+                    js.append((h_convert, (cls, p, vw, meth, extra, kind), 1800))
         elif cls == 'BitMaskedArray':
             for p in pats:
                 for v in itertools.product((True, False), repeat=2):
-                    js.append((h_convert, (cls, p, v, meth, extra, kind), 600))
+                    js.append((h_convert, (cls, p, v, meth, extra, kind), 1800))
         else:
-            js.append((h_convert, (cls, (0, 0, 0), None, meth, extra, kind), 600))
+            js.append((h_convert, (cls, (0, 0, 0), None, meth, extra, kind), 1800))
     return js
 
 
@@ -1607,12 +1607,12 @@ def jobs_c10(tier):
         for length in (0, 2, 3):
             for n in (0, 1, 2, 3):
                 if length or n == 0:
-                    js.append((h_record, (nf, length, 'carry', n), 600))
+                    js.append((h_record, (nf, length, 'carry', n), 1800))
             for a, b in ((0, 0), (0, length), (1, length), (0, max(0, length - 1)), (1, 2)):
                 if 0 <= a <= b <= length:
-                    js.append((h_record, (nf, length, 'range', (a, b)), 600))
+                    js.append((h_record, (nf, length, 'range', (a, b)), 1800))
         for k in range(-1, nf + 1):
-            js.append((h_record, (nf, 2, 'field', k), 600))
+            js.append((h_record, (nf, 2, 'field', k), 1800))
     return js
 
 
@@ -1700,7 +1700,7 @@ def jobs_carry(tier):
              ('IndexedOptionArray64', (0, 1, 0), None), ('IndexedArray64', (0, 0, 0), None), ('ByteMaskedArray', (0, 1, 0), True), ('ByteMaskedArray', (1, 0), False)]
     for cls, dims, variant in cases:
         for n in ((0, 2) if tier == 'quick' else (0, 1, 2, 3)):
-            js.append((h_carry, (cls, dims, variant, n), 600))
+            js.append((h_carry, (cls, dims, variant, n), 1800))
     return js
 
 
@@ -1806,7 +1806,7 @@ def jobs_flatten(tier):
         for d in (regs if cls == 'RegularArray' else shapes):
             for mode in ('at', 'inner', 'deep'):
                 for off0 in ((0, 1) if mode == 'inner' and cls != 'RegularArray' else (0,)):
-                    js.append((h_list_flatten, (cls, d, mode, off0), 600))
+                    js.append((h_list_flatten, (cls, d, mode, off0), 1800))
     return js
 
 
@@ -1858,7 +1858,7 @@ def jobs_combinations(tier):
         for d in (regs if cls == 'RegularArray' else shapes):
             for n in ((2, 3) if tier == 'quick' else (1, 2, 3)):
                 for rep in (False, True):
-                    js.append((h_combinations, (cls, d, n, rep), 600))
+                    js.append((h_combinations, (cls, d, n, rep), 1800))
     return js
 
 
@@ -1962,7 +1962,7 @@ def jobs_option_reduce(tier):
     cases = [((0, 1, 0), [0, 0, 0]), ((1, 0, 0, 1), [0, 0, 1, 1]), ((0, 0), [0, 1]), ((1, 1), [0, 0])]
     if tier != 'quick':
         cases += [((0, 1, 0, 1, 0), [0, 0, 1, 1, 1]), ((1, 0, 1), [0, 1, 1]), ((0, 0, 0), [0, 0, 0])]
-    return [(h_option_reduce, (p, par, pos), 600) for p, par in cases for pos in (False, True)]
+    return [(h_option_reduce, (p, par, pos), 1800) for p, par in cases for pos in (False, True)]
 
 
 # ------------------------------------------------------------------------------------------------ C08 / C12: NumpyArray::mergemany (rectilinear concatenation)
@@ -2048,7 +2048,7 @@ def jobs_numpy(tier):
     cases = [((3,), (2,)), ((2, 3), (1, 3)), ((0,), (2,)), ((1, 2), (0, 2), (2, 2)), ((2, 1, 2), (1, 1, 2))]
     if tier != 'quick':
         cases += [((2, 2), (2, 2), (1, 2)), ((1,), (1,), (1,)), ((3, 0), (1, 0))]
-    return [(h_numpy_mergemany, (c,), 600) for c in cases]
+    return [(h_numpy_mergemany, (c,), 1800) for c in cases]
 
 
 # ------------------------------------------------------------------------------------------------ C01: NumpyArray::getitem on strided views
@@ -2165,9 +2165,9 @@ def jobs_numpy_getitem(tier):
     views = [(3, 1, 0), (3, 2, 1), (2, 3, 2)] if tier == 'quick' else [(n, s, o) for n in (0, 1, 3) for s in (1, 2, 3) for o in (0, 1)]
     for n, s, o in views:
         for k in (1, 2):
-            js.append((h_numpy_getitem, (n, s, o, 'array', k), 600))
+            js.append((h_numpy_getitem, (n, s, o, 'array', k), 1800))
         for step in ((1, -1, 2) if tier == 'quick' else (1, 2, 3, -1, -2)):
-            js.append((h_numpy_getitem, (n, s, o, 'range', step), 600))
+            js.append((h_numpy_getitem, (n, s, o, 'range', step), 1800))
     return js
 
 
@@ -2312,7 +2312,7 @@ def jobs_union(tier):
     for o in outs:
         for i in ins:
             for mp in ((), ('B',), ('C',)):
-                js.append((h_union_simplify, (o, i, mp), 600))
+                js.append((h_union_simplify, (o, i, mp), 1800))
     return js
 
 
@@ -2468,12 +2468,12 @@ def jobs_option_getitem(tier):
     pats = [(0, 1, 0), (0, 0)] if tier == 'quick' else [p for k in (1, 2, 3) for p in itertools.product((0, 1), repeat=k)]
     for hk in ('at', 'range'):
         for p in pats:
-            js.append((h_option_getitem, ('IndexedOptionArray64', p, None, hk), 600))
-            js.append((h_option_getitem, ('ByteMaskedArray', p, True, hk), 600))
-            js.append((h_option_getitem, ('BitMaskedArray', p, (True, False), hk), 600))
+            js.append((h_option_getitem, ('IndexedOptionArray64', p, None, hk), 1800))
+            js.append((h_option_getitem, ('ByteMaskedArray', p, True, hk), 1800))
+            js.append((h_option_getitem, ('BitMaskedArray', p, (True, False), hk), 1800))
             if not any(p):
-                js.append((h_option_getitem, ('IndexedArray64', p, None, hk), 600))
-                js.append((h_option_getitem, ('UnmaskedArray', p, None, hk), 600))
+                js.append((h_option_getitem, ('IndexedArray64', p, None, hk), 1800))
+                js.append((h_option_getitem, ('UnmaskedArray', p, None, hk), 1800))
     return js
 
 
@@ -2542,4 +2542,4 @@ def h_fillna(pattern, mergeable):
 
 def jobs_fillna(tier):
     pats = [(0, 1, 0), (1, 1), (0, 0)] if tier == 'quick' else [p for k in (1, 2, 3, 4) for p in itertools.product((0, 1), repeat=k)]
-    return [(h_fillna, (p, mg), 600) for p in pats for mg in (True, False)]
+    return [(h_fillna, (p, mg), 1800) for p in pats for mg in (True, False)]
